@@ -1,14 +1,302 @@
 import Model.Util
 /-
-  Model/C51.lean — (stub) executable model; see DESIGN.md.  Core Lean only.
+  Model/C51.lean — executable model of the categorical (C51) projection of
+  `agilerl.algorithms.dqn_rainbow.RainbowDQN._dqn_loss` and of the way `learn` combines the
+  1-step / n-step element-wise losses and returns them as priorities.  Core Lean only, exact `Rat`.
+
+  What is a parameter (not modelled): the networks.  A transition carries the *outputs* of the
+  three forward passes the code makes —
+    `q`    = `actor(next_obs)`                      (online q-values, used for the arg-max),
+    `pT`   = `actor_target(next_obs, q=False)`      (A × N target distributions; clamped soft-max,
+                                                     so they need not sum to one),
+    `logp` = `actor(obs, q=False, log=True)`        (A × N opaque log-probabilities).
 -/
+namespace C51
+
+/-! ### support -/
+
+structure Cfg where
+  N    : Nat          -- num_atoms
+  vmin : Rat
+  vmax : Rat
+deriving Repr
+
+/-- what `__init__` / `_dqn_loss` need in order not to raise (`N = 1` divides by zero,
+    `vmin = vmax` makes `b` NaN and `index_add_` raises) -/
+def Cfg.Valid (c : Cfg) : Prop := 2 ≤ c.N ∧ c.vmin < c.vmax
+
+instance (c : Cfg) : Decidable c.Valid := by unfold Cfg.Valid; exact inferInstance
+
+/-- `self.delta_z = (v_max - v_min) / (num_atoms - 1)` -/
+def Cfg.delta (c : Cfg) : Rat := (c.vmax - c.vmin) / ((c.N : Rat) - 1)
+
+/-- `self.support[j]`, `support = torch.linspace(v_min, v_max, num_atoms)` -/
+def Cfg.z (c : Cfg) (j : Nat) : Rat := c.vmin + (j : Rat) * c.delta
+
+/-- `x.clamp(min=lo, max=hi)` = `min(max(x, lo), hi)` -/
+def clamp (lo hi x : Rat) : Rat := min (max x lo) hi
+
+/-- `t_z = (rewards + (1 - dones) * gamma * support).clamp(v_min, v_max)`, atom `j` -/
+def tz (c : Cfg) (r d g : Rat) (j : Nat) : Rat :=
+  clamp c.vmin c.vmax (r + (1 - d) * g * c.z j)
+
+/-- `self.support` as a list -/
+def supportList (c : Cfg) : List Rat := (List.range c.N).map c.z
+
+/-- `b = ((t_z - v_min) / delta_z).clamp(0, num_atoms - 1)`.  (The clamp is the repair of the
+    float32 overflow; over `Rat` it is the identity for every valid configuration —
+    `Proofs.C51Proj.bpos_eq`.) -/
+def bpos (c : Cfg) (r d g : Rat) (j : Nat) : Rat :=
+  clamp 0 ((c.N : Rat) - 1) ((tz c r d g j - c.vmin) / c.delta)
+
+/-- `L = b.floor(); u = b.ceil(); L[(u > 0) * (L == u)] -= 1; u[(L < N-1) * (L == u)] += 1`
+    (the second mask is evaluated on the already corrected `L`) -/
+def lowUp (N : Nat) (b : Rat) : Int × Int :=
+  let l := b.floor
+  let u := b.ceil
+  let l' := if 0 < u ∧ l = u then l - 1 else l
+  let u' := if l' < (N : Int) - 1 ∧ l' = u then u + 1 else u
+  (l', u')
+
+/-! ### the two `index_add_` calls on the flattened `(B * N)` buffer -/
+
+/-- one batch row as `_dqn_loss` sees it after the arg-max selection -/
+structure Row where
+  r : Rat
+  d : Rat
+  p : List Rat          -- `target_q_dist[b, next_actions[b], :]`
+deriving Repr
+
+/-- `t_z[b, :]` of one transition -/
+def tzList (c : Cfg) (g : Rat) (row : Row) : List Rat := (List.range c.N).map (tz c row.r row.d g)
+
+/-- the `(flat index, value)` pairs that batch row number `off / N` contributes to the first
+    (`up = false`: `L + offset`, `p * (u - b)`) or to the second (`up = true`: `u + offset`,
+    `p * (b - L)`) `index_add_`; `off = offset[row, ·] = row * N` -/
+def rowOps (c : Cfg) (g : Rat) (up : Bool) (off : Nat) (row : Row) : List (Int × Rat) :=
+  (List.range c.N).map fun j =>
+    let b := bpos c row.r row.d g j
+    let lu := lowUp c.N b
+    let pj := row.p.getD j 0
+    if up then (lu.2 + (off : Int), pj * (b - (lu.1 : Rat)))
+    else (lu.1 + (off : Int), pj * ((lu.2 : Rat) - b))
+
+/-- `(L + offset).view(-1)` zipped with `(target_q_dist * (u - b)).view(-1)`: row-major,
+    row `bi` shifted by `offset = linspace(0, (B-1)·N, B).long()[bi] = bi · N` -/
+def allOps (c : Cfg) (g : Rat) (up : Bool) : Nat → List Row → List (Int × Rat)
+  | _, [] => []
+  | bi, row :: rest => rowOps c g up (bi * c.N) row ++ allOps c g up (bi + 1) rest
+
+/-- `v[i] += x` on a flat buffer (indices are `long`, possibly out of range: then nothing is
+    written here and `opsInRange` is false — the real `index_add_` raises) -/
+def addAt (v : List Rat) (i : Int) (x : Rat) : List Rat :=
+  if 0 ≤ i then v.modify i.toNat (· + x) else v
+
+/-- `v.index_add_(0, idx, src)` — sequential accumulation, duplicates allowed -/
+def indexAdd (v : List Rat) (ops : List (Int × Rat)) : List Rat :=
+  ops.foldl (fun acc o => addAt acc o.1 o.2) v
+
+def opsInRange (len : Nat) (ops : List (Int × Rat)) : Bool :=
+  ops.all fun o => decide (0 ≤ o.1) && decide (o.1 < (len : Int))
+
+/-- `proj_dist.view(-1)` after both `index_add_` calls -/
+def projFlat (c : Cfg) (g : Rat) (rows : List Row) : List Rat :=
+  indexAdd (indexAdd (List.replicate (rows.length * c.N) 0) (allOps c g false 0 rows))
+    (allOps c g true 0 rows)
+
+/-- `proj_dist[bi]` -/
+def projRow (c : Cfg) (g : Rat) (rows : List Row) (bi : Nat) : List Rat :=
+  ((projFlat c g rows).drop (bi * c.N)).take c.N
+
+/-- every flat index of both scatters lies inside the buffer (otherwise torch raises) -/
+def projOK (c : Cfg) (g : Rat) (rows : List Row) : Bool :=
+  opsInRange (rows.length * c.N) (allOps c g false 0 rows) &&
+  opsInRange (rows.length * c.N) (allOps c g true 0 rows)
+
+/-- specification-level reference: the projection of one transition on its own, no offsets -/
+def projOne (c : Cfg) (g : Rat) (row : Row) : List Rat :=
+  indexAdd (indexAdd (List.replicate c.N 0) (rowOps c g false 0 row)) (rowOps c g true 0 row)
+
+/-! ### loss, `learn` -/
+
+def dot (a b : List Rat) : Rat := (List.zipWith (· * ·) a b).sum
+
+structure Sample where
+  r    : Rat
+  d    : Rat
+  a    : Nat                  -- action taken
+  idx  : Nat                  -- index in the (prioritised) buffer
+  q    : List Rat             -- actor(next_obs)
+  pT   : List (List Rat)      -- actor_target(next_obs, q=False)
+  logp : List (List Rat)      -- actor(obs, q=False, log=True)
+deriving Repr
+
+/-- first index of the maximum (`argmax(1)`); `0` on an empty list -/
+def argmaxFrom : List Rat → Nat → Rat → Nat → Nat
+  | [], _, _, best => best
+  | x :: xs, i, m, best => if m < x then argmaxFrom xs (i + 1) x i else argmaxFrom xs (i + 1) m best
+
+def argmaxFirst : List Rat → Nat
+  | [] => 0
+  | x :: xs => argmaxFrom xs 1 x 0
+
+/-- `target_q_dist[range(B), next_actions]` for one sample -/
+def Sample.row (s : Sample) : Row :=
+  { r := s.r, d := s.d, p := s.pT.getD (argmaxFirst s.q) [] }
+
+/-- `log_q_dist[range(B), actions]` for one sample -/
+def Sample.logpA (s : Sample) : List Rat := s.logp.getD s.a []
+
+/-- `_dqn_loss(...)`: `elementwise_loss = -(proj_dist * log_p).sum(1)` -/
+def dqnLoss (c : Cfg) (g : Rat) (batch : List Sample) : List Rat :=
+  batch.zipIdx.map fun sb => - dot (projRow c g (batch.map Sample.row) sb.2) sb.1.logpA
+
+structure Hyper where
+  cfg      : Cfg
+  gamma    : Rat
+  nStep    : Nat
+  combined : Bool
+  priorEps : Rat
+deriving Repr
+
+structure LearnOut where
+  elementwise : List Rat
+  loss        : Option Rat       -- `mean(elementwise)`; not modelled under PER (importance weights)
+  idxs        : Option (List Nat)
+  priorities  : Option (List Rat)
+deriving Repr
+
+def mean (l : List Rat) : Rat := l.sum / (l.length : Rat)
+
+/-- `learn(experiences, n_experiences, per)` up to and including the returned tuple; the
+    optimiser step and the soft update do not feed back into the returned values -/
+def learn (h : Hyper) (per : Bool) (one : List Sample) (nst : Option (List Sample)) : LearnOut :=
+  let el : List Rat :=
+    match nst with
+    | none => dqnLoss h.cfg h.gamma one
+    | some nb =>
+      let eln := dqnLoss h.cfg (h.gamma ^ h.nStep) nb
+      if h.combined then List.zipWith (· + ·) (dqnLoss h.cfg h.gamma one) eln else eln
+  { elementwise := el
+    loss := if per then none else some (mean el)
+    idxs := if per || nst.isSome then some (one.map (·.idx)) else none
+    priorities := if per then some (el.map (· + h.priorEps)) else none }
+
+end C51
+
+/-! ### line protocol -/
 namespace C51
 open Util
 
 structure IOState where
-  dummy : Nat := 0
+  hyper : Hyper := { cfg := { N := 2, vmin := 0, vmax := 1 }, gamma := 1, nStep := 1,
+                     combined := false, priorEps := 0 }
+  ready : Bool := false
+  one   : List Sample := []
+  nst   : List Sample := []
+
+def showRows (rows : List (List Rat)) : String := " | ".intercalate (rows.map showRats)
+
+def parseBool? : String → Option Bool
+  | "0" => some false
+  | "1" => some true
+  | _ => none
+
+/-- `r d a idx A q… pT… logp…` with `A` actions and `N` atoms -/
+def parseSample? (N : Nat) (ws : List String) : Option Sample :=
+  match ws with
+  | r :: d :: a :: idx :: na :: rest =>
+    match parseRat? r, parseRat? d, parseNat? a, parseNat? idx, parseNat? na, parseRats? rest with
+    | some r, some d, some a, some idx, some na, some xs =>
+      if na = 0 ∨ xs.length ≠ na + 2 * na * N ∨ a ≥ na then none else
+        let q := xs.take na
+        let pT := chunks N ((xs.drop na).take (na * N))
+        let lp := chunks N (xs.drop (na + na * N))
+        some { r := r, d := d, a := a, idx := idx, q := q, pT := pT, logp := lp }
+    | _, _, _, _, _, _ => none
+  | _ => none
+
+def batchOf (s : IOState) : String → Option (List Sample)
+  | "0" => some s.one
+  | "1" => some s.nst
+  | _ => none
+
+def showOptNats : Option (List Nat) → String
+  | none => "none"
+  | some l => showNats l
+
+def showOptRat : Option Rat → String
+  | none => "none"
+  | some q => showRat q
+
+def showOptRats : Option (List Rat) → String
+  | none => "none"
+  | some l => showRats l
 
 def step (s : IOState) : List String → IOState × String
+  | ["cfg", n, lo, hi] =>
+    match parseNat? n, parseRat? lo, parseRat? hi with
+    | some n, some lo, some hi =>
+      let c : Cfg := { N := n, vmin := lo, vmax := hi }
+      if c.Valid then ({ s with hyper := { s.hyper with cfg := c }, ready := true, one := [], nst := [] }, "ok")
+      else ({ s with ready := false }, "reject")       -- ZeroDivisionError / IndexError in the code
+    | _, _, _ => (s, "bad-op")
+  | ["hyper", g, n, comb, eps] =>
+    match parseRat? g, parseNat? n, parseBool? comb, parseRat? eps with
+    | some g, some n, some comb, some eps =>
+      if n = 0 then (s, "reject") else
+      ({ s with hyper := { s.hyper with gamma := g, nStep := n, combined := comb, priorEps := eps } }, "ok")
+    | _, _, _, _ => (s, "bad-op")
+  | ["support"] =>
+    if s.ready then (s, showRats (supportList s.hyper.cfg)) else (s, "bad-op")
+  | ["lowup", n, b] =>
+    match parseNat? n, parseRat? b with
+    | some n, some b => let lu := lowUp n b; (s, s!"{lu.1} {lu.2}")
+    | _, _ => (s, "bad-op")
+  | ["clear"] => ({ s with one := [], nst := [] }, "ok")
+  | "sample" :: slot :: ws =>
+    if !s.ready then (s, "bad-op") else
+    match parseSample? s.hyper.cfg.N ws with
+    | none => (s, "bad-op")
+    | some x =>
+      match slot with
+      | "0" => ({ s with one := s.one ++ [x] }, "ok")
+      | "1" => ({ s with nst := s.nst ++ [x] }, "ok")
+      | _ => (s, "bad-op")
+  | ["greedy", slot] =>
+    match batchOf s slot with
+    | some b => (s, showNats (b.map fun x => argmaxFirst x.q))
+    | none => (s, "bad-op")
+  | ["tz", slot, g] =>
+    match batchOf s slot, parseRat? g with
+    | some b, some g =>
+      if !s.ready then (s, "bad-op") else
+      (s, showRows (b.map fun x => tzList s.hyper.cfg g x.row))
+    | _, _ => (s, "bad-op")
+  | ["proj", slot, g] =>
+    match batchOf s slot, parseRat? g with
+    | some b, some g =>
+      if !s.ready || b.isEmpty then (s, "bad-op") else
+      let c := s.hyper.cfg
+      let rows := b.map Sample.row
+      if !projOK c g rows then (s, "reject") else
+      (s, showRows ((List.range rows.length).map (projRow c g rows)))
+    | _, _ => (s, "bad-op")
+  | ["loss", slot, g] =>
+    match batchOf s slot, parseRat? g with
+    | some b, some g =>
+      if !s.ready || b.isEmpty then (s, "bad-op") else
+      if !projOK s.hyper.cfg g (b.map Sample.row) then (s, "reject") else
+      (s, showRats (dqnLoss s.hyper.cfg g b))
+    | _, _ => (s, "bad-op")
+  | ["learn", per, nOn] =>
+    match parseBool? per, parseBool? nOn with
+    | some per, some nOn =>
+      if !s.ready || s.one.isEmpty then (s, "bad-op") else
+      if nOn && s.nst.length ≠ s.one.length then (s, "reject") else
+      let o := learn s.hyper per s.one (if nOn then some s.nst else none)
+      (s, s!"el {showRats o.elementwise} ; loss {showOptRat o.loss} ; idxs {showOptNats o.idxs} ; prio {showOptRats o.priorities}")
+    | _, _ => (s, "bad-op")
   | _ => (s, "bad-op")
 
 end C51
